@@ -10,7 +10,7 @@ import (
 
 func init() {
 	props["C09"] = c09
-	floors["C09"] = map[string]int{"C09.R1": 3, "C09.R2": 8, "C09.R3": 10, "C09.R4": 7, "C09.R5": 8}
+	floors["C09"] = map[string]int{"C09.R1": 3, "C09.R2": 13, "C09.R3": 10, "C09.R4": 7, "C09.R5": 8}
 }
 
 // anyFlowMu reports whether some lock whose path ends in ".flowMu" is held.
@@ -152,6 +152,42 @@ func c09(r *Report) {
 			p := g.PathTo([]ssa.Instruction{send}, false, isDec, func(i ssa.Instruction) bool { return isExit(i) || i == ssa.Instruction(send) })
 			r.Paths++
 			r.Decide("path", "(*M/h2.outputBuffer).emitEligibleFrames: "+dec.name+" reduced after every emission", p == nil, "every path from the send to the next iteration/exit subtracts flowControlSize()", "an emitted frame is not accounted against the "+dec.name, send.Pos())
+		}
+		// window accounting is purely additive: outside initialisation a window is only ever changed by
+		// adding or subtracting a protocol quantity (RFC 7540 6.9.2: a window that became negative stays
+		// negative until credit arrives)
+		for _, f := range w.Funcs("h2") {
+			if f.Name() == "newRelay" {
+				continue
+			}
+			for _, in := range instrs(f) {
+				st, ok := in.(*ssa.Store)
+				if !ok {
+					continue
+				}
+				name := ""
+				switch a := st.Addr.(type) {
+				case *ssa.FieldAddr:
+					if n := fieldObj(a).Name(); (n == "windowSize" || n == "connectionWindowSize") && !freshBase(a) {
+						name = n
+					}
+				case *ssa.Parameter:
+					if f == emit && a == emit.Params[2] {
+						name = "*connectionWindowSize"
+					}
+				}
+				if name == "" {
+					continue
+				}
+				additive := false
+				if b, isB := st.Val.(*ssa.BinOp); isB && (b.Op == token.ADD || b.Op == token.SUB) {
+					if ld, isLd := b.X.(*ssa.UnOp); isLd && ld.Op == token.MUL && pathOf(ld.X) == pathOf(st.Addr) {
+						additive = true
+					}
+				}
+				r.Sites++
+				r.Decide("flow", fmt.Sprintf("%s: store to %s #%d is an increment/decrement of the window", fnName(f), name, ordinalStore(st)), additive, "w = w +/- quantity", "a flow-control window is overwritten (clamped or reset) instead of adjusted: credit the receiver never granted appears, or granted credit is lost", st.Pos())
+			}
 		}
 		// flowControlSize agrees with what send writes
 		for _, tn := range []string{"queuedDataFrame", "queuedHeaderFrame", "queuedPushPromiseFrame", "queuedPriorityFrame", "queuedRSTStreamFrame"} {
